@@ -329,7 +329,7 @@ def run(rep, tier, only=None):
             v = r["violations"][0]
             if gname == "single-file":
                 lang, trig, pos, ws = case
-                sig = {"lang": lang, "kind": v["kind"], "trigger": trig, "position": pos, "depth": len(ws), "outer": ws[0] if ws else "-", "problem": re.sub(r"`[^`]*`", "`..`", v.get("problem", ""))[:60]}
+                sig = {"lang": lang, "kind": v["kind"], "trigger": trig, "position": pos, "depth": len(ws), "eff_depth": len(ws) + (1 if trig == "bytes" else 0), "outer": ws[0] if ws else "-", "problem": re.sub(r"`[^`]*`", "`..`", v.get("problem", ""))[:60]}
                 key = (lang, trig, v.get("problem", "")[:40], len(ws) > 0, ws[:1], pos in ("alias", "generic_alias"))
                 if key in reported:
                     continue
